@@ -2,6 +2,7 @@
 package c03
 
 import (
+	"bytes"
 	"errors"
 	"fmt"
 	"math/rand"
@@ -371,6 +372,50 @@ func runLong(c *Case, r *mon.Rec) {
 	ca := packet.CRC16(m[:k])
 	if w := specref.CRCFrom(ca, m[k:]); got != w {
 		r.Violate(c, "crc-mismatch", mon.Attrs{"len": c.Len, "how": "split-continue"}, fmt.Sprintf("len %d split %d: CRC16(whole)=%#04x, reference continued from CRC16(prefix)=%#04x gives %#04x", c.Len, k, got, ca, w))
+	}
+	// the message is the caller's memory, and so is whatever stands behind it in the same array (the trailer of the frame
+	// being checked, for one): computing a checksum reads, it does not write - whatever the length's parity or size
+	for _, n := range []int{c.Len, c.Len - 1, 17 + rng.Intn(40), 16 + 2*rng.Intn(20) + 1} {
+		if n < 0 || n > c.Len {
+			continue
+		}
+		buf := make([]byte, n+8)
+		copy(buf, m[:n])
+		for i := n; i < len(buf); i++ {
+			buf[i] = 0xE0 + byte(i-n)
+		}
+		before := append([]byte{}, buf...)
+		g := packet.CRC16(buf[:n])
+		r.Eval(1)
+		if !bytes.Equal(buf, before) {
+			r.Violate(c, "crc16-writes-to-caller-memory", mon.Attrs{"odd_length": n%2 == 1}, fmt.Sprintf("CRC16 of a %d-byte message that has spare capacity behind it: the 8 bytes behind the message read % x before the call and % x after it", n, before[n:], buf[n:]))
+			break
+		}
+		if w := specref.CRC(m[:n]); g != w {
+			r.Violate(c, "crc-mismatch", mon.Attrs{"len": n, "how": "reference"}, fmt.Sprintf("len %d (message with spare capacity): got %#04x want %#04x", n, g, w))
+			break
+		}
+	}
+	// history: a short message, the same message followed by one, two, three zero bytes, and back - one call right after
+	// the other. Each checksum is a function of its message alone
+	base := libx.RandBytes(rng, rng.Intn(7))
+	var fam [][]byte
+	for z := 0; z <= 3 && len(base)+z <= 9; z++ {
+		fam = append(fam, append(append([]byte{}, base...), make([]byte, z)...))
+	}
+	for i := len(fam) - 2; i >= 0; i-- {
+		fam = append(fam, fam[i])
+	}
+	for i, fm := range fam {
+		r.Eval(1)
+		if g, w := packet.CRC16(fm), specref.CRC(fm); g != w {
+			prev := []byte(nil)
+			if i > 0 {
+				prev = fam[i-1]
+			}
+			r.Violate(c, "crc-mismatch", mon.Attrs{"len": len(fm), "how": "after-a-message-that-differs-in-trailing-zeros"}, fmt.Sprintf("CRC16(% x)=%#04x want %#04x when computed right after CRC16(% x)", fm, g, w, prev))
+			break
+		}
 	}
 	r.Sample(map[string]any{"kind": "long", "len": c.Len, "crc": got, "split": k})
 }
